@@ -115,6 +115,19 @@ static int hwloc_append_diff_obj_attr_uint64(hwloc_obj_t obj,
 	return 0;
 }
 
+/* An info diff only identifies the modified pair by its name and old value.
+ * It cannot tell which pair is modified when several pairs share that name.
+ */
+static int
+hwloc_diff_info_name_is_ambiguous(struct hwloc_infos_s *infos, unsigned idx)
+{
+	unsigned i;
+	for(i=0; i<infos->count; i++)
+		if (i != idx && !strcmp(infos->array[i].name, infos->array[idx].name))
+			return 1;
+	return 0;
+}
+
 static int
 hwloc_diff_trees(hwloc_topology_t topo1, hwloc_obj_t obj1,
 		 hwloc_topology_t topo2, hwloc_obj_t obj2,
@@ -223,6 +236,8 @@ hwloc_diff_trees(hwloc_topology_t topo1, hwloc_obj_t obj1,
 		if (strcmp(info1->name, info2->name))
 			goto out_too_complex;
 		if (strcmp(info1->value, info2->value)) {
+			if (hwloc_diff_info_name_is_ambiguous(&obj1->infos, i))
+				goto out_too_complex;
                         err = hwloc_append_diff_obj_attr_string(topo1, obj1,
 								HWLOC_TOPOLOGY_DIFF_OBJ_ATTR_INFO,
 								info1->name,
@@ -351,6 +366,8 @@ int hwloc_topology_diff_build(hwloc_topology_t topo1,
             if (strcmp(info1->name, info2->name))
               goto roottoocomplex;
             if (strcmp(info1->value, info2->value)) {
+              if (hwloc_diff_info_name_is_ambiguous(&topo1->infos, i))
+                goto roottoocomplex;
               err = hwloc_append_diff_obj_attr_string(topo1, NULL,
                                                       HWLOC_TOPOLOGY_DIFF_OBJ_ATTR_INFO,
                                                       info1->name,
